@@ -260,6 +260,63 @@ func ruleEmitOnce(r *Report) {
 		})
 		h.Check(ok, "(*column.Txn).commit/changedRows", r.P.Pos(commit.Pos()), "changedRows = findMarkers().ok", "the flag that decides whether rows changed is not the result of findMarkers")
 	}
+	// commitUpdates reports "some column was updated": its result starts false and can only become true
+	if cu := r.P.Fn("(*column.Txn).commitUpdates"); cu != nil {
+		mono := true
+		seen := map[ssa.Value]bool{}
+		var walk func(v ssa.Value, fromEntry bool)
+		walk = func(v ssa.Value, fromEntry bool) {
+			if v == nil || seen[v] {
+				return
+			}
+			seen[v] = true
+			switch x := v.(type) {
+			case *ssa.Const:
+				if x.Value != nil && x.Value.String() == "false" && !fromEntry {
+					mono = false
+				}
+			case *ssa.Phi:
+				for i, e := range x.Edges {
+					walk(e, x.Block().Preds[i] == cu.Blocks[0])
+				}
+			case *ssa.UnOp:
+				// named result captured by a closure: a cell; every store into it, here and in closures
+				if al, ok := x.X.(*ssa.Alloc); ok && x.Op == token.MUL {
+					first := true
+					for _, ref := range *al.Referrers() {
+						switch y := ref.(type) {
+						case *ssa.Store:
+							if y.Addr == ssa.Value(al) {
+								walk(y.Val, first && y.Block() == cu.Blocks[0])
+								first = false
+							}
+						case *ssa.MakeClosure:
+							cf := y.Fn.(*ssa.Function)
+							for i, b := range y.Bindings {
+								if b == ssa.Value(al) {
+									for _, r2 := range *cf.FreeVars[i].Referrers() {
+										if st, isSt := r2.(*ssa.Store); isSt {
+											walk(st.Val, false)
+										}
+									}
+								}
+							}
+						}
+					}
+				} else {
+					mono = false
+				}
+			default:
+				mono = false
+			}
+		}
+		for _, ret := range returnsOf(cu) {
+			for _, v := range cellStoresBefore(ret) {
+				walk(v, false)
+			}
+		}
+		h.Check(mono, "(*column.Txn).commitUpdates/updated", r.P.Pos(cu.Pos()), "result only goes from false to true", "commitUpdates' result can be set back to false while the buffers are scanned: a block whose last buffer has nothing for it is applied but reported as unchanged, and its commit is never emitted")
+	}
 	// once per dirty block: the callback is invoked by rangeWrite exactly once per iteration
 	rw := r.Anchor("(*column.Txn).rangeWrite")
 	if rw != nil {
@@ -998,7 +1055,7 @@ func skipConditions(cu *ssa.Function) (bool, string) {
 // C03.rowdelete, C03.register, C03.backfill, C03.order
 
 func ruleRowDelete(r *Report) {
-	h := r.Rule("C03.rowdelete", "P", "commitMarkers applies the marker buffer of the block to every registry entry (every column, index, trigger and sorted index is its own entry): columns.Range visits cols[0] of every entry and the callback applies (block, reader)", 2)
+	h := r.Rule("C03.rowdelete", "P", "commitMarkers applies the marker buffer of the block to every registry entry (every column, index, trigger and sorted index is its own entry): columns.Range visits cols[0] of every entry and the callback applies (block, reader)", 3)
 	cm := r.Anchor("(*column.Txn).commitMarkers")
 	if cm == nil {
 		return
@@ -1030,6 +1087,22 @@ func ruleRowDelete(r *Report) {
 		}
 	}
 	h.Check(ok, "(*column.Txn).commitMarkers/apply-all", r.P.InstrPos(pos), "markers applied to every registry entry", "row markers are not applied to every registered column: deleted rows keep presence bits, index bits or table entries")
+	if ok {
+		// … on every path: the pass over the columns is unconditional, or skipped only under a flag
+		// that can only go from false to true while the markers of the block are scanned
+		var rangeCall ssa.Instruction
+		for _, c := range callsTo(cm, false, "(*commit.Reader).Range") {
+			cc, _, _ := callCommon(c)
+			if f1 := asFunc(cc.Args[3]); f1 != nil && len(callsTo(f1, false, "(*column.columns).Range")) > 0 {
+				rangeCall = c
+			}
+		}
+		always, _ := mustPassToReturn(cm.Blocks[0], 0, func(ins ssa.Instruction) bool { return ins == rangeCall })
+		if !always && rangeCall != nil {
+			always = monotoneGuard(cm, rangeCall)
+		}
+		h.Check(always, "(*column.Txn).commitMarkers/apply-always", r.P.InstrPos(rangeCall), "the pass over the columns runs whenever the block has markers", "the pass that applies row markers to the columns can be skipped under a condition that is not a monotone \"a delete was seen\" flag: a block whose markers come in several runs keeps the keys, index bits and values of deleted rows")
+	}
 	if rg := r.Anchor("(*column.columns).Range"); rg != nil {
 		// fn(v.cols[0]) inside a loop over the whole published slice
 		ok := false
@@ -1438,4 +1511,76 @@ func ruleBlockLoops(r *Report) {
 		})
 		h.Check(ok, name, r.P.Pos(fn.Pos()), "for block := 0; block <= len(index)>>bitmapShift; block++", "the per-block loop does not visit every block of the selection from 0 up to and including the last (partial) one: rows of the skipped block are neither filtered nor iterated")
 	}
+}
+
+// monotoneGuard: the call is guarded only by loads of a local bool cell that starts false and is
+// otherwise only ever set to true or to (itself || something).
+func monotoneGuard(fn *ssa.Function, call ssa.Instruction) bool {
+	var cell *ssa.Alloc
+	guarded := edgeGuarded(call.Block(), func(c ssa.Value) (bool, bool) {
+		ld, ok := c.(*ssa.UnOp)
+		if !ok || ld.Op != token.MUL {
+			return false, false
+		}
+		al, ok := ld.X.(*ssa.Alloc)
+		if !ok {
+			return false, false
+		}
+		cell = al
+		return true, true
+	})
+	if !guarded || cell == nil {
+		return false
+	}
+	monotone := true
+	checkStore := func(v ssa.Value, cellAddr ssa.Value) {
+		if c, isC := v.(*ssa.Const); isC && c.Value != nil {
+			return
+		}
+		if phi, isPhi := v.(*ssa.Phi); isPhi {
+			// short-circuit `cell || x`: one edge is the constant true coming from the block that tested the cell
+			for i, e := range phi.Edges {
+				if c, isC := e.(*ssa.Const); isC && c.Value != nil && c.Value.String() == "true" {
+					pred := phi.Block().Preds[i]
+					if iff, isIf := pred.Instrs[len(pred.Instrs)-1].(*ssa.If); isIf {
+						if ld, isLd := iff.Cond.(*ssa.UnOp); isLd && ld.X == cellAddr {
+							return
+						}
+					}
+				}
+			}
+		}
+		monotone = false
+	}
+	nFalse := 0
+	for _, ref := range *cell.Referrers() {
+		switch x := ref.(type) {
+		case *ssa.Store:
+			if x.Addr == ssa.Value(cell) {
+				if c, isC := x.Val.(*ssa.Const); isC && c.Value != nil && c.Value.String() == "false" {
+					nFalse++
+					continue
+				}
+				checkStore(x.Val, cell)
+			}
+		case *ssa.MakeClosure:
+			cf := x.Fn.(*ssa.Function)
+			for i, b := range x.Bindings {
+				if b != ssa.Value(cell) {
+					continue
+				}
+				fv := cf.FreeVars[i]
+				for _, r2 := range *fv.Referrers() {
+					if st, isSt := r2.(*ssa.Store); isSt && st.Addr == ssa.Value(fv) {
+						if c, isC := st.Val.(*ssa.Const); isC && c.Value != nil && c.Value.String() == "false" {
+							monotone = false
+							continue
+						}
+						checkStore(st.Val, fv)
+					}
+				}
+			}
+		}
+	}
+	return monotone && nFalse <= 1
 }
